@@ -1,36 +1,38 @@
 """C04 sexagesimal / right-ascension decomposition and printing are canonical.
 
-Decided: D1 after rounding the seconds, a field that may have reached its maximum
-(60 / 60 / 360) is tested and reset with a carry into the next field before any
-formatting return (typestate R-CARRY); D2 the sign is applied exactly once per printed
-string, to the leading non-zero field; D3 tuples and the RA string delegate to the same
-decomposition of value / value/15, which reduces first and works on the absolute value;
-the sexagesimal bases pair up between deg2dms (x60, x60) and dms2deg (/60, /3600)."""
+Decided: D1/D2 the printing routines dms_str / ra_str are evaluated symbolically (new helpers inlined, the
+decomposition deg2dms left opaque) and the resulting term - which looks at the fields only through comparisons
+with 0, 60, 360 and the rounding of the seconds - is executed exactly on every class of (degrees, minutes, seconds,
+sign, n_dec, style): the printed text never shows 60 in minutes or seconds, carries the sign once on the leading
+non-zero field, and reads back to the value rounded at the requested decimal modulo 360 deg / 24 h (R-CARRY);
+D3 tuples delegate to the one decomposition of value / value/15; deg2dms is proved equal, in every sign case of its
+comparisons, to (int a, int 60 frac a, 60 frac(60 frac a), sign) of a = |reduce(value)|; dms2deg is
+sign*(d + m/60 + s/3600) of the reduced pieces (R-SIB)."""
 import ast
+import re
 from fractions import Fraction
 
 from .. import symx, terms as T
 from ..frontend import AnalysisError, norm_text, body_without_docstring
-from ..rules import ret_term
+from ..rules import ret_term, eval_exact, NotEvaluable, signcase_equal, _alg_equal
 from .. import effects, guards
 
 MANIFEST = {
     "level": "other",
-    "technique": "static analysis: typestate (field below-max / may-be-max) over the structured control flow of dms_str with the carry idioms enumerated, syntactic sign-placement rule on the formatting returns, delegation and base-pairing checks by symbolic evaluation",
-    "text": "For every path through the printing routine (all values, all numbers of decimals): a seconds or minutes field that rounding or a carry may have pushed to 60, and a degree field pushed to 360, is always reset before it is formatted; the sign multiplies exactly one printed field, the leading non-zero one. Recombination to 1e-9 and the exact read-back of printed text are rounding facts and are not decided.",
-    "note": "Trusted: carry idioms (abs(x - MAX) < TOL, x >= MAX, x == MAX with a reset in the true branch). Undecided: recombination, read-back of printed strings, values within 1e-12 of a field boundary.",
+    "technique": "static analysis: symbolic evaluation of the printing routines (helpers inlined) followed by an exhaustive decision table over the classes of (degrees, minutes, seconds, sign, decimals, style) that the extracted term can distinguish; sign-case equivalence proof (exhaustive case split on the comparisons with zero, polynomial normal forms in each case) of the decomposition against its specification; algebraic match of the recombination",
+    "text": "For all values and numbers of decimals: the printed forms (both styles, angle and right ascension) never show 60 in minutes or seconds after the rounding carry, wrap 360 deg to 0, carry the sign exactly once on the leading non-zero field and read back to the rounded value modulo 360 deg / 24 h - decided on every class the code can distinguish (each field at 0, 1, mid-range, its maximum; seconds that round to 0, to 60 or stay; both signs; no / zero / some decimals). deg2dms is proved to be (int a, int 60 frac a, 60 frac(60 frac a), sign) of a = |reduce(value)| and dms2deg its inverse formula. Floating-point recombination to 1e-9 is not decided.",
+    "note": "Trusted: deg2dms returns integer degrees in [0, 360), minutes in [0, 60), seconds in [0, 60) (its formula is proved, the float rounding of frac*60 is not); Python's round() and str.format(). Undecided: recombination to 1e-9 in floating point, values within 1e-12 of a field boundary inside deg2dms.",
 }
 MOD, CLS = "Angle", "Angle"
-MAXV = {0: 360.0, 1: 60.0, 2: 60.0}
 
 
 def run(repo, rep, tier):
-    rep.decided = ["D1 no 60 in minutes/seconds, degree wrap (R-CARRY)", "D2 sign applied once on the leading non-zero field",
-                   "D3 delegation of tuples / RA string; bases pair up"]
-    rep.undecided = ["recombination to 1e-9", "read-back of printed text", "values within 1e-12 of a field boundary"]
-    rep.rule("R-CARRY", "typestate: every field that may be at its maximum is tested and reset (with carry) before a formatting return")
-    carry(repo, rep)
-    sign_once(repo, rep)
+    rep.decided = ["D1 no 60 in minutes/seconds, degree wrap, read-back modulo 360 deg / 24 h (R-CARRY decision table)",
+                   "D2 sign shown once on the leading non-zero field", "D3 delegation of tuples; deg2dms formula; dms2deg formula"]
+    rep.undecided = ["floating-point recombination to 1e-9", "values within 1e-12 of a field boundary inside deg2dms"]
+    rep.rule("R-CARRY", "decision table: the printing term, executed exactly on every class of (d, m, s, sign, n_dec, style), never shows 60 in "
+                        "minutes/seconds, carries the sign once on the leading non-zero field and reads back to the rounded value mod 360 deg / 24 h")
+    printed_forms(repo, rep)
     delegation(repo, rep)
     fam = [(MOD, "Angle." + q) for q in ("deg2dms", "dms2deg", "reduce_dms", "dms_str", "ra_str", "dms_tuple", "ra_tuple")]
     effects.check_functions(repo, rep, fam)
@@ -38,166 +40,226 @@ def run(repo, rep, tier):
     return "other"
 
 
-def fields_of(fn):
-    """names bound to (d, m, s, sign) from the deg2dms call"""
-    for node in ast.walk(fn):
-        if isinstance(node, ast.Assign) and isinstance(node.value, ast.Call) and norm_text(node.value.func).endswith("deg2dms") \
-                and isinstance(node.targets[0], ast.Tuple) and len(node.targets[0].elts) == 4:
-            return [e.id for e in node.targets[0].elts if isinstance(e, ast.Name)]
-    return None
+NUM_RE = r"-?\d+(?:\.\d+)?(?:e-?\d+)?"
 
 
-def at_max_test(test, names):
-    """test establishes `field is at its maximum` -> index of the field"""
-    if isinstance(test, ast.Compare) and len(test.ops) == 1:
-        left, op, right = test.left, test.ops[0], test.comparators[0]
-        # abs(x - MAX) < tol
-        if isinstance(op, (ast.Lt, ast.LtE)) and isinstance(left, ast.Call) and isinstance(left.func, ast.Name) and left.func.id == "abs" \
-                and isinstance(left.args[0], ast.BinOp) and isinstance(left.args[0].op, ast.Sub) and isinstance(left.args[0].left, ast.Name) \
-                and isinstance(left.args[0].right, ast.Constant):
-            n = left.args[0].left.id
-            if n in names and float(left.args[0].right.value) == MAXV[names.index(n)]:
-                return names.index(n)
-        # x >= MAX / x == MAX
-        if isinstance(op, (ast.GtE, ast.Eq)) and isinstance(left, ast.Name) and isinstance(right, ast.Constant) and left.id in names:
-            if float(right.value) == MAXV[names.index(left.id)]:
-                return names.index(left.id)
-    return None
+def parse_printed(s):
+    """[(raw text, Fraction)] for degrees/hours, minutes, seconds as printed (missing leading fields are None), or None"""
+    s = s.strip()
+    if ":" in s:
+        parts = s.split(":")
+        if len(parts) != 3:
+            return None
+        out = []
+        for p_ in parts:
+            if not re.fullmatch(NUM_RE, p_.strip()):
+                return None
+            out.append((p_.strip(), Fraction(p_.strip())))
+        return out
+    toks = re.findall("(%s)\\s*(d|h|''|')" % NUM_RE, s)
+    rest = re.sub("(%s)\\s*(d|h|''|')" % NUM_RE, "", s).strip()
+    if rest or not toks:
+        return None
+    slot = {"d": 0, "h": 0, "'": 1, "''": 2}
+    out = [None, None, None]
+    for raw, u in toks:
+        if out[slot[u]] is not None:
+            return None
+        out[slot[u]] = (raw, Fraction(raw))
+    return out
 
 
-def carry(repo, rep):
-    q = "Angle.dms_str"
-    rep.fn(MOD, q)
-    fn = repo.func(MOD, q)
-    names = fields_of(fn)
-    site = "%s.%s" % (MOD, q)
-    if not names or len(names) != 4:
-        rep.violation("R-CARRY", site, "shape", "fields are not taken from Angle.deg2dms(...) as (d, m, s, sign)")
-        return
-    fields = names[:3]
-    problems = []
-    nret = [0]
+def printing_prims(terms, seen_args):
+    def val(x, env):
+        return eval_exact(x, env, prims)
 
-    def resets(stmts, i):
-        n = fields[i]
-        for s in stmts:
-            if isinstance(s, ast.Assign) and any(isinstance(t, ast.Name) and t.id == n for t in s.targets) \
-                    and isinstance(s.value, ast.Constant) and s.value.value in (0, 0.0):
-                return True
-            if isinstance(s, ast.AugAssign) and isinstance(s.target, ast.Name) and s.target.id == n and isinstance(s.op, ast.Sub) \
-                    and isinstance(s.value, ast.Constant) and float(s.value.value) == MAXV[i]:
-                return True
-        return False
+    def shown(v):
+        if isinstance(v, Fraction):
+            return int(v) if v.denominator == 1 else float(v)
+        return v
 
-    lost = []
-
-    def carries(stmts, j):
-        n = fields[j]
-        return any(isinstance(s, ast.AugAssign) and isinstance(s.target, ast.Name) and s.target.id == n and isinstance(s.op, ast.Add)
-                   and isinstance(s.value, ast.Constant) and float(s.value.value) == 1.0 for s in stmts)
-
-    def walk(stmts, state):
-        state = dict(state)
-        for s in stmts:
-            if isinstance(s, ast.Assign):
-                for t in s.targets:
-                    if isinstance(t, ast.Name) and t.id in fields:
-                        i = fields.index(t.id)
-                        if any(isinstance(n, ast.Call) and isinstance(n.func, ast.Name) and n.func.id == "round" for n in ast.walk(s.value)):
-                            state[i] = "max?"
-                        elif isinstance(s.value, ast.Constant):
-                            state[i] = "ok"
-                        else:
-                            state[i] = "max?"
-                    elif isinstance(t, ast.Tuple):
-                        for e in t.elts:
-                            if isinstance(e, ast.Name) and e.id in fields:
-                                state[fields.index(e.id)] = "ok"      # fresh decomposition
-            elif isinstance(s, ast.AugAssign) and isinstance(s.target, ast.Name) and s.target.id in fields:
-                i = fields.index(s.target.id)
-                if isinstance(s.op, ast.Add):
-                    state[i] = "max?"
-                elif isinstance(s.op, ast.Sub) and isinstance(s.value, ast.Constant) and float(s.value.value) == MAXV[i]:
-                    state[i] = "ok"
+    def prims(t, env):
+        if t[0] != "call":
+            return None
+        f = t[1]
+        if f == "Angle.Angle.deg2dms" and len(t) == 3:
+            seen_args.add(t[2])
+            return env["$dms"]
+        if f == "round" and len(t) in (3, 4):
+            a = val(t[2], env)
+            n = int(val(t[3], env)) if len(t) == 4 else 0
+            return Fraction(round(Fraction(a), n))
+        if f == "len" and len(t) == 3:
+            return Fraction(len(val(t[2], env)))
+        if f == "str" and len(t) == 3:
+            return str(shown(val(t[2], env)))
+        if f == ".replace" and len(t) == 5:
+            return val(t[2], env).replace(val(t[3], env), val(t[4], env))
+        if f == ".format":
+            tpl = val(t[2], env)
+            pos, kw = [], {}
+            for a in t[3:]:
+                if a[0] == "kw":
+                    kw[a[1]] = shown(val(a[2], env))
+                elif a[0] == "call" and a[1] == "*":
+                    pos.extend(shown(v) for v in val(a[2], env))
                 else:
-                    state[i] = "max?"
-            elif isinstance(s, ast.If):
-                i = at_max_test(s.test, fields)
-                st_true = walk(s.body, state)
-                st_false = walk(s.orelse, state)
-                if i is not None and resets(s.body, i):
-                    st_true[i] = "ok"
-                    st_false[i] = "ok"       # the test failed: the field is below its maximum
-                    if i > 0 and not carries(s.body, i - 1):
-                        lost.append((fields[i], fields[i - 1]))
-                t1 = all(isinstance(x, (ast.Return, ast.Raise)) for x in s.body[-1:]) and bool(s.body)
-                t2 = all(isinstance(x, (ast.Return, ast.Raise)) for x in s.orelse[-1:]) and bool(s.orelse)
-                if t1 and t2:
-                    return state
-                if t1:
-                    state = st_false
-                elif t2:
-                    state = st_true
+                    pos.append(shown(val(a, env)))
+            if not isinstance(tpl, str):
+                raise NotEvaluable("format of a non-string")
+            try:
+                return tpl.format(*pos, **kw)
+            except (IndexError, KeyError, ValueError) as e:
+                raise NotEvaluable("str.format: %s" % e)
+        if f == "Angle.Angle.dms_str" and "Angle.dms_str" in terms and len(t) >= 3:
+            e2 = dict(env)
+            extra = [a for a in t[3:] if a[0] != "kw"]
+            kws = {a[1]: a[2] for a in t[3:] if a[0] == "kw"}
+            names = terms["Angle.dms_str:params"]
+            for i, (nm_, sym_, dflt) in enumerate(names):
+                if i < len(extra):
+                    e2[sym_] = val(extra[i], env)
+                elif nm_ in kws:
+                    e2[sym_] = val(kws[nm_], env)
                 else:
-                    state = {k: ("ok" if st_true[k] == "ok" and st_false[k] == "ok" else "max?") for k in state}
-            elif isinstance(s, ast.Return):
-                nret[0] += 1
-                used = {n.id for n in ast.walk(s) if isinstance(n, ast.Name)}
-                for i, f in enumerate(fields):
-                    if f in used and state[i] != "ok":
-                        problems.append((s.lineno, f, MAXV[i]))
-        return state
-
-    walk(body_without_docstring(fn), {0: "ok", 1: "ok", 2: "ok"})
-    rep.floor("formatting returns in dms_str", nret[0], 4)
-    for lo, hi in sorted(set(lost)):
-        rep.violation("R-CARRY", site, "carry-lost:" + lo, "field `%s` is reset at its maximum without carrying 1 into `%s` (the value printed loses a unit)" % (lo, hi))
-    if problems:
-        fs = sorted({(f, mx) for _, f, mx in problems})
-        for f, mx in fs:
-            rep.violation("R-CARRY", site, "may-print-max:" + f,
-                          "field `%s` may still equal %g when it is formatted: after rounding / a carry it is not tested and reset on every path" % (f, mx))
-    elif not lost:
-        rep.ok("R-CARRY", site, "seconds -> minutes -> degrees: each field that may reach 60/60/360 is tested and reset before all %d formatting returns" % nret[0])
+                    e2[sym_] = dflt
+            if t[2][0] == "angle":
+                seen_args.add(T.call("red", t[2][1]))
+            return eval_exact(terms["Angle.dms_str"], e2, printing_prims(terms, set()))
+        return None
+    return prims
 
 
-def sign_once(repo, rep):
-    q = "Angle.dms_str"
-    fn = repo.func(MOD, q)
-    names = fields_of(fn)
-    if not names:
-        return
-    fields, sign = names[:3], names[3]
-    site = "%s.%s" % (MOD, q)
-    bad = []
-    n = 0
+def printed_forms(repo, rep):
+    A = ("angle", T.sym("A"))
+    terms = {}
+    for q in ("Angle.dms_str", "Angle.ra_str"):
+        rep.fn(MOD, q)
+        fn = repo.func(MOD, q)
+        nm = [a.arg for a in fn.args.args]
+        if len(nm) < 3:
+            raise AnalysisError("%s: expected (self, fancy, n_dec)" % q)
+        dfl = [None] * (len(nm) - len(fn.args.defaults)) + list(fn.args.defaults)
+        dv = lambda d, fb: Fraction(d.value) if isinstance(d, ast.Constant) and isinstance(d.value, (int, float)) and not isinstance(d.value, bool) \
+            else bool(d.value) if isinstance(d, ast.Constant) and isinstance(d.value, bool) else fb
+        terms[q + ":params"] = [(nm[1], T.sym("FANCY"), dv(dfl[1], False)), (nm[2], T.sym("NUM_NDEC"), dv(dfl[2], Fraction(-1)))]
+        terms[q] = ret_term(repo, MOD, q, arg_terms={"self": A, nm[1]: T.sym("FANCY"), nm[2]: T.sym("NUM_NDEC")})
+    F = Fraction
+    S_REPS = [F(0), F(1, 250), F(49, 4), F(119, 2), F(599999, 10000)]
+    for q, wrap, scale in (("Angle.dms_str", 360, F(1)), ("Angle.ra_str", 24, F(1, 15))):
+        site = "%s.%s" % (MOD, q)
+        t = terms[q]
+        # constants the fields are compared with, beyond 0 / 60 / 360 and tolerances: added to the representatives
+        extra = set()
+        for x in T.walk(t):
+            if x[0] == "cmp":
+                for side in (x[2], x[3]):
+                    if side[0] == "num" and side[1] not in (0, 60, 360) and abs(side[1]) >= F(1, 1000):
+                        extra.add(F(side[1]))
+            if x[0] == "add":
+                for y in x[1:]:
+                    if y[0] == "num" and abs(y[1]) not in (0, 1, 60, 360) and abs(y[1]) >= F(1, 1000):
+                        extra.add(abs(F(y[1])))
+        if len(extra) > 6:
+            rep.inconcl("R-CARRY", site, "the printing term compares the fields with %d further constants; the class table is not built" % len(extra))
+            continue
+        dmax = wrap - 1
+        d_reps = sorted({F(0), F(1), F(5), F(dmax)} | {c_ for c in extra for c_ in (c - 1, c) if 0 <= c_ <= dmax and c_.denominator == 1})
+        m_reps = sorted({F(0), F(1), F(7), F(59)} | {c_ for c in extra for c_ in (c - 1, c) if 0 <= c_ <= 59 and c_.denominator == 1})
+        s_reps = sorted(set(S_REPS) | {c_ for c in extra for c_ in (c - F(1, 10000), c) if 0 <= c_ < 60})
+        seen_args = set()
+        prims = printing_prims(terms, seen_args)
+        fails = {}
+        n_cls = 0
+        err = None
+        for fancy in (True, False):
+            for nd in (-1, 0, 2):
+                for d in d_reps:
+                    for m in m_reps:
+                        for s_ in s_reps:
+                            for sg in (F(1), F(-1)):
+                                env = {T.sym("FANCY"): fancy, T.sym("NUM_NDEC"): F(nd), "$dms": (d, m, s_, sg)}
+                                try:
+                                    out = eval_exact(t, env, prims)
+                                except NotEvaluable as e:
+                                    err = str(e)
+                                    break
+                                except (TypeError, ValueError, ZeroDivisionError, IndexError, KeyError) as e:
+                                    err = "%s: %s" % (type(e).__name__, e)
+                                    break
+                                n_cls += 1
+                                cls = "(d, m, s, sign) = (%s, %s, %s, %+d), n_dec=%d, fancy=%s" % (d, m, float(s_), sg, nd, fancy)
+                                if not isinstance(out, str):
+                                    fails.setdefault("not-a-string", (cls, repr(out)))
+                                    continue
+                                pr = parse_printed(out)
+                                if pr is None:
+                                    if fancy:
+                                        err = "printed form %r is not made of <number><unit> fields" % out
+                                        break
+                                    fails.setdefault("read-back", (cls, "%r is not three numbers separated by colons" % out))
+                                    continue
+                                vals = [abs(x[1]) if x else F(0) for x in pr]
+                                if vals[1] >= 60 or vals[2] >= 60:
+                                    fails.setdefault("shows-60", (cls, "prints %r" % out))
+                                s_r = F(round(s_, nd)) if nd >= 0 else s_
+                                total = d * 3600 + m * 60 + s_r
+                                printed = vals[0] * 3600 + vals[1] * 60 + vals[2]
+                                W = wrap * 3600
+                                if abs(printed - total) > F(1, 10 ** 9) and abs(printed - total % W) > F(1, 10 ** 9):
+                                    fails.setdefault("read-back", (cls, "prints %r = %s arcsec, the rounded value is %s arcsec" % (out, float(printed), float(total))))
+                                minus = out.count("-")
+                                if sg > 0 or printed == 0:
+                                    if minus and sg > 0:
+                                        fails.setdefault("sign", (cls, "prints %r: a minus sign on a positive value" % out))
+                                else:
+                                    lead = next((x for x in pr if x is not None and x[1] != 0), None)
+                                    if minus != 1 or lead is None or not lead[0].startswith("-"):
+                                        fails.setdefault("sign", (cls, "prints %r: the minus sign must appear once, on the leading non-zero field" % out))
+                            if err:
+                                break
+                        if err:
+                            break
+                    if err:
+                        break
+                if err:
+                    break
+            if err:
+                break
+        if err:
+            rep.inconcl("R-CARRY", site, "the printing term cannot be executed on the class table: %s" % err)
+            continue
+        rep.floor("classes of (d, m, s, sign, n_dec, style) executed for %s" % q, n_cls, 900)
+        # the decomposition printed is that of the value itself (dms) or of value/15 (ra)
+        arg_ok = bool(seen_args)
+        want = T.mul(T.num(scale), T.sym("A"))
+        for a in seen_args:
+            a0 = a
+            while True:
+                a1 = T.subst(a0, {T.call("red", T.sym("A")): T.sym("A")})
+                a1 = strip_red(a1)
+                if a1 == a0:
+                    break
+                a0 = a1
+            if not _alg_equal(a0, want):
+                arg_ok = False
+                rep.violation("R-SIB", site, "delegation", "%s decomposes %s, not the value%s" % (q.split(".")[-1], T.show(a)[:80], "" if scale == 1 else "/15"))
+        if arg_ok:
+            rep.ok("R-SIB", site, "decomposes value%s through deg2dms" % ("" if scale == 1 else "/15"))
+        for kind, (cls, what) in sorted(fails.items()):
+            rep.violation("R-CARRY", site, kind, "for %s: %s" % (cls, what), construct=cls)
+        if not fails:
+            rep.ok("R-CARRY", site, "%d classes: no 60 shown, sign once on the leading non-zero field, text reads back to the rounded value mod %d" % (n_cls, wrap), obligation=True)
 
-    def walk(stmts, nonzero):
-        nonlocal n
-        for s in stmts:
-            if isinstance(s, ast.If):
-                nz = None
-                t = s.test
-                if isinstance(t, ast.Compare) and isinstance(t.left, ast.Name) and t.left.id in fields and isinstance(t.ops[0], ast.NotEq) \
-                        and isinstance(t.comparators[0], ast.Constant) and t.comparators[0].value in (0, 0.0):
-                    nz = t.left.id
-                walk(s.body, nz if nz else nonzero)
-                walk(s.orelse, nonzero if nz is None else None)
-            elif isinstance(s, ast.Return) and isinstance(s.value, ast.Call) and isinstance(s.value.func, ast.Attribute) and s.value.func.attr == "format":
-                n += 1
-                with_sign = [a for a in s.value.args if any(isinstance(x, ast.Name) and x.id == sign for x in ast.walk(a))]
-                if len(with_sign) != 1:
-                    bad.append("line %d: sign applied to %d fields" % (s.lineno, len(with_sign)))
-                    continue
-                fld = [x.id for x in ast.walk(with_sign[0]) if isinstance(x, ast.Name) and x.id in fields]
-                if nonzero is None or fld != [nonzero]:
-                    bad.append("line %d: sign applied to %s but the leading non-zero field is %s" % (s.lineno, fld, nonzero))
-                # fields before the signed one must not be printed with a sign and must be literal zeros or absent
-    walk(body_without_docstring(fn), None)
-    if bad:
-        rep.violation("R-CARRY", site, "sign-placement", "; ".join(bad))
-    else:
-        rep.ok("R-CARRY", site + ":sign", "the sign multiplies exactly one field in each of %d formatted returns: the leading non-zero one" % n)
+
+def strip_red(t):
+    """red(k * red(x)) and red(x) -> the argument: reduction modulo 360 does not change what deg2dms decomposes
+    (deg2dms reduces its argument itself - proved by the decomposition rule below)"""
+    if t[0] == "call" and t[1] == "red" and len(t) == 3:
+        return t[2]
+    if t[0] == "mul":
+        return T.mul(*[strip_red(x) for x in t[1:]])
+    return t
 
 
 def delegation(repo, rep):
@@ -212,39 +274,42 @@ def delegation(repo, rep):
         rep.ok("R-SIB", "Angle.Angle.dms_tuple/ra_tuple", "deg2dms(value) and deg2dms(value/15)")
     else:
         rep.violation("R-SIB", "Angle.Angle.dms_tuple/ra_tuple", "delegation", "tuples are not deg2dms(value) / deg2dms(value/15): %s ; %s" % (T.show(t1)[:60], T.show(t2)[:60]))
-    rep.fn(MOD, "Angle.ra_str")
-    fn = repo.func(MOD, "Angle.ra_str")
-    nm = [a.arg for a in fn.args.args]
-    t3 = ret_term(repo, MOD, "Angle.ra_str", arg_terms={"self": A, nm[1]: T.sym("FANCY"), nm[2]: T.sym("NDEC")})
-    calls = [x for x in T.walk(t3) if x[0] == "call" and x[1] == "Angle.Angle.dms_str"]
-    want_recv = ("angle", T.mul(T.num(Fraction(1, 15)), T.call("red", T.call("red", T.sym("A")))))
-    ok3 = bool(calls) and all(c[2][0] == "angle" and c[3:] == (T.sym("FANCY"), T.sym("NDEC")) for c in calls)
-    if ok3:
-        rep.ok("R-SIB", "Angle.Angle.ra_str", "dms_str(fancy, n_dec) of an Angle holding value/15")
-    else:
-        rep.violation("R-SIB", "Angle.Angle.ra_str", "delegation", "ra_str does not print value/15 through dms_str(fancy, n_dec): " + T.show(t3)[:100])
     # deg2dms: reduce first, absolute value, bases 60/60 ; dms2deg: /60, /3600
     rep.fn(MOD, "Angle.deg2dms"); rep.fn(MOD, "Angle.dms2deg")
     fn = repo.func(MOD, "Angle.deg2dms")
     t4 = ret_term(repo, MOD, "Angle.deg2dms", arg_terms={fn.args.args[0].arg: T.sym("X")})
-    ok4 = False
-    if t4[0] == "tuple" and len(t4) == 5:
-        de, mi, se, sg = t4[1:]
-        a = T.call("abs", T.call("red", T.sym("X")))
-        mi_f = T.mul(T.num(60), T.call("mod", a, T.num(1)))
-        ok4 = (de == T.call("int", a) and mi == T.call("int", mi_f) and se == T.mul(T.num(60), T.call("mod", mi_f, T.num(1)))
-               and sg[0] == "phi" and sg[2] == T.num(1) and sg[3] == T.num(-1))
-    if ok4:
-        rep.ok("R-SIB", "Angle.Angle.deg2dms", "reduces first, works on |value|: (int(a), int(60*frac(a)), 60*frac(60*frac(a)), sign)")
+    a = T.call("abs", T.call("red", T.sym("X")))
+    mi_f = T.mul(T.num(60), T.call("mod", a, T.num(1)))
+    model = ("tuple", T.call("int", a), T.call("int", mi_f), T.mul(T.num(60), T.call("mod", mi_f, T.num(1))),
+             T.phi(("cmp", "Lt", T.call("red", T.sym("X")), T.num(0)), T.num(-1), T.num(1)))
+    t4n = ("tuple",) + tuple(t4[1:]) if t4[0] in ("tuple", "list") else t4
+    st = {}
+    ok4, why = signcase_equal(t4n, model, stats=st)
+    if ok4 is True:
+        rep.ok("R-SIB", "Angle.Angle.deg2dms", "reduces first, works on |value|: (int(a), int(60*frac(a)), 60*frac(60*frac(a)), sign) in all %d sign cases" % st.get("cases", 1),
+               obligation=True)
+    elif ok4 is False:
+        trail, t_res, m_res = why
+        rep.violation("R-SIB", "Angle.Angle.deg2dms", "decomposition",
+                      "deg2dms is not (int(a), int(60 frac a), 60 frac(60 frac a), sign) of a = |reduce(value)|: in the case %s it returns %s, the decomposition is %s"
+                      % (", ".join("%s %s" % kv for kv in trail) or "of any value", T.show(t_res)[:160], T.show(m_res)[:160]), obligation=True)
     else:
-        rep.violation("R-SIB", "Angle.Angle.deg2dms", "decomposition", "deg2dms is not (int(a), int(60 frac a), 60 frac(60 frac a), sign) of a = |reduce(value)|: " + T.show(t4)[:160])
+        rep.inconcl("R-SIB", "Angle.Angle.deg2dms", "equality with the sexagesimal decomposition not decided: %s" % why)
     fn = repo.func(MOD, "Angle.dms2deg")
     nm = [a.arg for a in fn.args.args]
     t5 = ret_term(repo, MOD, "Angle.dms2deg", arg_terms={nm[0]: T.sym("D"), nm[1]: T.sym("M"), nm[2]: T.sym("S")})
     r = T.call("Angle.Angle.reduce_dms", T.sym("D"), T.sym("M"), T.sym("S"))
     comp = lambda i: ("idx", r, T.num(i))
-    want = T.call("float", T.mul(comp(3), T.add(comp(0), T.mul(T.num(Fraction(1, 60)), comp(1)), T.mul(T.num(Fraction(1, 3600)), comp(2)))))
-    if t5 == want:
+    want = T.mul(comp(3), T.add(comp(0), T.mul(T.num(Fraction(1, 60)), comp(1)), T.mul(T.num(Fraction(1, 3600)), comp(2))))
+    got = t5
+    while got[0] == "call" and got[1] == "float" and len(got) == 3:
+        got = got[2]
+    known = {comp(i) for i in range(4)}
+    foreign = [x for x in T.walk(got) if x[0] in ("call", "idx", "sym", "phi") and x not in known and x != r and x[0] != "num"
+               and not (x[0] == "sym" and x in (T.sym("D"), T.sym("M"), T.sym("S")))]
+    if _alg_equal(got, want):
         rep.ok("R-SIB", "Angle.Angle.dms2deg", "sign*(d + m/60 + s/3600) of reduce_dms(...): bases pair with deg2dms (x60, x60)")
+    elif foreign:
+        rep.inconcl("R-SIB", "Angle.Angle.dms2deg", "the result is not a polynomial in the pieces of reduce_dms(d, m, s): " + T.show(t5)[:120])
     else:
         rep.violation("R-SIB", "Angle.Angle.dms2deg", "recombination", "dms2deg is not sign*(d + m/60 + s/3600) of the reduced pieces: " + T.show(t5)[:140])
